@@ -160,7 +160,7 @@ Proof. split; [apply band_new_wf|]. split; [lia|]. vm_compute. reflexivity. Qed.
    Proofs/BandedDet2Pad.v: the two runs choose the same pivots, make the same exchanges, store the same multipliers, and
    their work matrices agree on every slot whose column lies inside the matrix; padding values only flow into padding
    slots.)  This supersedes the reading "on a nonsingular band over a field" of band_solve_padding_independent. ---- *)
-From OV Require Import Proofs.BandedDet2Pad Proofs.BandedDet2Cor.
+From OV Require Import Proofs.BandedDet2Pad Proofs.BandedDet2Cor Proofs.BandedDet2Round.
 Theorem band_det_padding_independent : forall (A : Arith) (B B' : banded A),
   wfB B -> same_in_matrix_slots B B' -> band_det B' = band_det B.
 Proof. intros A B B'. exact (band_det_padding_lemma B B'). Qed.
@@ -173,6 +173,13 @@ Proof. intros A B B' b. exact (band_solve_padding_any_lemma B B' b). Qed.
 Check band_solve_padding_independent_any : forall (A : Arith) (B B' : banded A) (b : list A),
   wfB B -> same_in_matrix_slots B B' -> band_solve B' b = band_solve B b.
 Print Assumptions band_solve_padding_independent_any.
+(* ... and the matrix-vector product likewise (band_mul_spec has this under ring laws; here: any arithmetic) *)
+Theorem band_mul_padding_independent_any : forall (A : Arith) (B B' : banded A) (v : list A),
+  wfB B -> length v = bn B -> same_in_matrix_slots B B' -> band_mul B' v = band_mul B v.
+Proof. intros A B B' v. exact (band_mul_padding_any_lemma B B' v). Qed.
+Check band_mul_padding_independent_any : forall (A : Arith) (B B' : banded A) (v : list A),
+  wfB B -> length v = bn B -> same_in_matrix_slots B B' -> band_mul B' v = band_mul B v.
+Print Assumptions band_mul_padding_independent_any.
 (* non-vacuity at binary64: [[2,1],[1,5]] (m1 = m2 = 1) once with NaN and once with 0 / 7 in the two padding slots *)
 Definition ex_F : banded AF := @mkB AF 2 1 1 (@mkM AF [nan; 2; 1;   1; 5; nan]%float 2 3).
 Definition ex_F' : banded AF := @mkB AF 2 1 1 (@mkM AF [0; 2; 1;   1; 5; 7]%float 2 3).
